@@ -76,8 +76,10 @@ def gen_cfg(g, k):
     else:
         cfg["opts"] = {"adaptive": True, "target_efficiency": float(g.uniform(0.75, 0.92))}
     cfg["sched"] = sched
-    if g.random() < 0.4:
+    if g.random() < 0.4 or k % 4 == 1:
         cfg["opts"]["n_final_samples"] = int(cfg["n"] + g.integers(3, 20))
+        if sampler == "smc" and k % 2 == 1:
+            cfg["n_final_steps"] = cfg["kernel_steps"] + int(g.integers(1, 4))
     cfg["ckpt_every"] = int([1, 2, 3][k % 3])
     pk = {}
     mode = ["default", "affine", "bounded", "none", "bounded_affine"][(k // 2) % 5]
@@ -138,7 +140,7 @@ def run_case(case):
     viol = []
     g = np.random.default_rng(case["seed"])
     cfg = gen_cfg(g, case["k"])
-    shown = {k: cfg[k] for k in ("sampler", "xp", "dtype", "n", "opts", "precond", "ckpt_every", "kernel_steps")}
+    shown = {k: cfg.get(k) for k in ("sampler", "xp", "dtype", "n", "opts", "precond", "ckpt_every", "kernel_steps", "n_final_steps")}
     where = f"{shown}"
     tol = 1e-6 if cfg["xp"] == "torch" else 0.0
     counters["configurations"] += 1
